@@ -64,6 +64,16 @@ def replay(recs):
             chk(f"{hk}.parallel/{dim}D", st, case, r["par"], lambda: h.parallel(p), cls("line" if dim == 2 else "plane", r["par"]))
             chk(f"{hk}.project/{dim}D", st, case, r["foot"], lambda: h.project(p), cls("point", r["foot"]))
             chk(f"{hk}.mirror/{dim}D", st, case, r["mir"], lambda: h.mirror(p), cls("point", r["mir"]))
+            # the hyperplane stored with complex dtype (what angle_bisectors, mirror and perpendicular themselves return) and
+            # scaled: the four constructions in sequence on the SAME object, which must also come out unchanged
+            hc = (g.Line if dim == 2 else g.Plane)(np.array(r["h"], dtype=complex) * 2)
+            before = np.array(hc.array, copy=True)
+            chk(f"{hk}.perpendicular/{dim}D/complex-dtype", st, case, r["perp"], lambda: hc.perpendicular(p), cls("line" if dim == 2 else "line3", r["perp"]))
+            chk(f"{hk}.project/{dim}D/complex-dtype", st, case, r["foot"], lambda: hc.project(p), cls("point", r["foot"]))
+            chk(f"{hk}.mirror/{dim}D/complex-dtype", st, case, r["mir"], lambda: hc.mirror(p), cls("point", r["mir"]))
+            chk(f"{hk}.parallel/{dim}D/complex-dtype", st, case, r["par"], lambda: hc.parallel(p), cls("line" if dim == 2 else "plane", r["par"]))
+            chk(f"{hk}/{dim}D/complex-dtype/operand-unchanged", st, case, before.tolist(), lambda: hc.array,
+                lambda v: np.array_equal(np.asarray(v), before))
             if dim == 2:
                 chk("Line.direction/2D", "general", case, r["dir"], lambda: h.direction, cls("point", r["dir"]))
                 chk("Line.base_point/2D", "general", case, "a finite point of the line", lambda: h.base_point,
